@@ -76,6 +76,92 @@ def read_impl(path, field, type_name, missing):
         return ("raw", type(e).__name__, str(e)[:200])
 
 
+PROGRAM_OPS = {
+    "Sum": lambda a, b: a + b, "Mean": lambda a, b: (a + b) / 2.0, "Maximum": lambda a, b: numpy.ma.maximum(a, b), "Minimum": lambda a, b: numpy.ma.minimum(a, b),
+    "Multiply": lambda a, b: a * b, "AMinusB": lambda a, b: a - b, "Copy": lambda a, b: a,
+}
+
+
+def programs(ctx, tmp):
+    """whole command files for the NetCDF library, loaded with Program.from_source and run: variables read, combined by one or two data commands, the
+    results written together and read back through the library - every written result holds what the command computed, missing exactly where
+    any of the results written together is missing"""
+    from netCDF4 import Dataset
+    from mpilot.program import Program, EEMS_NETCDF_LIBRARIES
+    from mpilot.exceptions import MPilotError
+    rng = ctx.rng
+    for i in range(ctx.budget(24, 600)):
+        shape = rng.choice(SHAPES)
+        n = int(numpy.prod(shape))
+        d = os.path.join(tmp, "prog%d" % (i % 4))
+        os.makedirs(d, exist_ok=True)
+        inp, outp = os.path.join(d, "in.nc"), os.path.join(d, "out.nc")
+        for f in (inp, outp):
+            if os.path.exists(f):
+                os.remove(f)
+        dims = ["d%d" % k for k in range(len(shape))]
+        arrs = {}
+        with Dataset(inp, "w") as ds:
+            for dn, m in zip(dims, shape):
+                ds.createDimension(dn, m)
+                v = ds.createVariable(dn, "f8", (dn,))
+                v[:] = [10.5 * (k + 1) for k in range(m)]
+            for nm in ("a", "b"):
+                a = numpy.ma.array(numpy.array([rng.choice([-2.5, -1.0, 0.0, 0.25, 1.0, 3.0, 7.5]) for _ in range(n)]).reshape(shape),
+                                   mask=numpy.array(eems.rand_mask(rng, n)).reshape(shape))
+                v = ds.createVariable(nm, "f8", tuple(dims))
+                v[:] = a
+                arrs[nm] = a
+        ops = [rng.choice(sorted(PROGRAM_OPS)) for _ in range(rng.choice([1, 2]))]
+        want = {"A": arrs["a"], "B": arrs["b"]}
+        lines = ['A = EEMSRead(InFileName = "in.nc", InFieldName = a)', 'B = EEMSRead(InFileName = "in.nc", InFieldName = b)']
+        for k, op in enumerate(ops):
+            x, y = rng.sample(sorted(want), 2)
+            if op == "Copy":
+                lines.append("R%d = Copy(InFieldName = %s)" % (k, x))
+            elif op == "AMinusB":
+                lines.append("R%d = AMinusB(A = %s, B = %s)" % (k, x, y))
+            else:
+                lines.append("R%d = %s(InFieldNames = [%s, %s])" % (k, op, x, y))
+            want["R%d" % k] = PROGRAM_OPS[op](want[x], want[y])
+        written = rng.sample(sorted(want), rng.randrange(1, len(want) + 1))
+        lines.append('Out = EEMSWrite(OutFileName = "out.nc", OutFieldNames = [%s], DimensionFileName = "in.nc", DimensionFieldName = a)' % ", ".join(written))
+        if rng.random() < 0.5:
+            rng.shuffle(lines)          # the order of the commands in the file does not matter
+        src = "\n".join(lines) + "\n"
+        desc = {"source": src, "shape": shape, "a": arrs["a"].tolist(), "b": arrs["b"].tolist()}
+        ctx.case("program %r" % (desc,), sample={"source": src})
+        ctx.count("netcdf_programs")
+        for op in ops:
+            ctx.count("netcdf_program_op:" + op)
+        try:
+            with numpy.errstate(all="ignore"):
+                p = Program.from_source(src, libraries=EEMS_NETCDF_LIBRARIES, working_dir=d)
+                p.run()
+        except (MPilotError, Exception) as e:
+            ctx.fail("a NetCDF command file that reads, combines and writes results is rejected / fails: %s %s" % (type(e).__name__, str(e)[:160]), desc)
+            continue
+        if not os.path.exists(outp):
+            ctx.fail("the command file ran but wrote no dataset", desc)
+            continue
+        union = numpy.zeros(shape, dtype=bool)
+        for nm in written:
+            union |= numpy.ma.getmaskarray(want[nm])
+        with Dataset(outp) as ds:
+            for nm in written:
+                if nm not in ds.variables:
+                    ctx.fail("result %s is not in the written dataset" % nm, desc); break
+                got = ds[nm][:]
+                if got.shape != tuple(shape) or not numpy.array_equal(numpy.ma.getmaskarray(got), union):
+                    ctx.fail("result %s read back with shape %r, missing at %r; expected %r, %r" % (
+                        nm, got.shape, numpy.ma.getmaskarray(got).astype(int).tolist(), shape, union.astype(int).tolist()), desc); break
+                if not numpy.allclose(numpy.ma.getdata(got)[~union], numpy.ma.getdata(want[nm])[~union], rtol=1e-12, atol=0):
+                    ctx.fail("values of result %s changed between computing, writing and reading back" % nm, desc); break
+            for dn in dims:
+                if dn not in ds.variables or not numpy.array_equal(numpy.ma.getdata(ds[dn][:]), numpy.array([10.5 * (k + 1) for k in range(ds[dn].shape[0])])):
+                    ctx.fail("coordinate values of %s were not copied unchanged" % dn, desc); break
+
+
 def run(ctx):
     ctx.check_proofs(["MPilot.Props.C18"])
     model = common.Model()
@@ -93,14 +179,15 @@ def run(ctx):
                                                               99.0000001, 2.5000000001, 1e-9, -1.0000000001, 0.9999999999, 2.0000001]   # near-misses of the missing values
         if rng.random() < 0.4:
             pool = [v for v in pool if v >= 0]
-        if rng.random() < 0.3:
-            pool = [v for v in pool if -1 <= v <= 1]
+        tname = rng.choice(TYPE_NAMES)
+        if rng.random() < (0.7 if tname == "Fuzzy" else 0.3):
+            # data that a Fuzzy read accepts: inside [-1, 1], or up to 1 % of the range beyond its ends (limited to the ends by the read)
+            pool = [v for v in pool + ([] if integer_file else [1.005, -1.015, 1.0000001]) if -1.015 <= v <= 1.015]
         vals = [rng.choice(pool) for _ in range(n)]
         mask = eems.rand_mask(rng, n)
         arr = numpy.ma.array(numpy.array(vals, dtype=int if integer_file else float).reshape(shape), mask=numpy.array(mask).reshape(shape))
         path = os.path.join(tmp, "r%d.nc" % (i % 10))
         make_var_file(path, shape, arr, fill=-9999 if rng.random() < 0.5 else None)
-        tname = rng.choice(TYPE_NAMES)
         missing = rng.choice([None, None, 0, 1, 2.5, -1.0, 99, 2])
         field = "v" if rng.random() < 0.93 else "nosuch"
         out = read_impl(path, field, tname, missing)
@@ -194,6 +281,8 @@ def run(ctx):
             integer = rng.random() < 0.3
             vals = [rng.choice([-3, 0, 1, 5, 7]) if integer else rng.choice([0.1, -2.5, 1 / 3.0, 1e-300, 5e-324, 1.7976931348623157e+308, 0.0, 123456.789, 2.5]) for _ in range(n)]
             a = numpy.ma.array(numpy.array(vals, dtype=int if integer else float).reshape(shape), mask=numpy.array(eems.rand_mask(rng, n)).reshape(shape))
+            if rng.random() < 0.3:
+                a = numpy.ma.array(numpy.ma.getdata(a))         # nothing missing, and no mask array at all (numpy's scalar `nomask`), as many operators return it
             results.append(a)
         names = ["res%d" % j for j in range(k)]
         outp = os.path.join(tmp, "out%d.nc" % (i % 5))
@@ -251,6 +340,7 @@ def run(ctx):
             if d:
                 ctx.disagree("ncwrite", desc, repr(v)[:200], part[:200] + " :: " + d)
                 break
+    programs(ctx, tmp)
     return ctx.finish(
         rule="(a) one variable per file: rank 1-3 grids incl. length-1 axes, float or integer storage, library-masked cells (explicit or default fill value), read with "
              "every DataType (none, Float, Integer, Positive Float, Positive Integer, Fuzzy) x MissingValue (none, int, float, fractional) x existing/missing variable; "
